@@ -223,6 +223,12 @@ def run_jacobians(ctx):
       nm = f'{tag}: reverse mode is the exact adjoint of forward mode (J_fwd == J_rev, all directions)'
       (out.ok(nm, 'numeric', sample={'obligation': nm, 'rel': adj}) if adj <= 1e-10 else out.fail(nm, witness=wit, detail=f'{adj:.3e}', key=f'{name}:adjoint'))
       nm = f'{tag}: forward derivative matches Richardson-extrapolated central differences'
+      if 'upwind' in name and k > 0 and fd == float('inf'):
+        # piecewise-linear in the vertical velocity, whose magnitude at generic states is below the difference step: most components cross the
+        # kink inside the step, where a difference quotient says nothing about the one-sided derivative.  Not compared at such states (no
+        # obligation); the comparison that matters is at the rest state, which sits exactly on the kink (DESIGN 9, C08 upwind)
+        out.info.setdefault('not_compared', []).append(tag)
+        continue
       tol = 2e-5 if 'query' not in name else 1e-4
       (out.ok(nm, 'numeric', sample={'obligation': nm, 'rel': fd}) if fd <= tol else out.fail(nm, witness=wit, detail=f'{fd:.3e}', key=f'{name}:finite difference'))
   return out
